@@ -129,6 +129,9 @@ func (u *Unit) fieldAddr(base Term, structT types.Type, idx int) Term {
 					}
 				}
 			}
+			if u.P.finalFa[fn] {
+				stable = true // proved module-wide (FinalCheck): nobody but the constructor writes it
+			}
 			if stable || (!f.Exported() && f.Pkg() != nil && strings.HasPrefix(f.Pkg().Path(), modulePath)) {
 				if u.P.privFa == nil {
 					u.P.privFa = map[string]int{}
@@ -187,7 +190,8 @@ func (u *Unit) load(st *State, addr Term, t types.Type) Term {
 	m := u.getMem(st, key, so)
 	v := u.selectMem(st, m, addr, so, 0)
 	if so == SV && v.Op == "select" {
-		u.clockFacts(v, t, 0)
+		// everything in this state's memory was allocated before its last mutation
+		u.clockFactsAt(st.Clock, v, t, 0)
 	}
 	return v
 }
@@ -195,17 +199,22 @@ func (u *Unit) load(st *State, addr Term, t types.Type) Term {
 // clockFacts: allocation clock. A reference found in memory (or in a map / on a
 // channel) now was allocated no later than now, so it differs from every
 // object allocated later on this path.
-func (u *Unit) clockFacts(v Term, t types.Type, depth int) {
+func (u *Unit) clockFacts(v Term, t types.Type, depth int) { u.clockFactsAt(u.fresh, v, t, depth) }
+
+func (u *Unit) clockFactsAt(now int, v Term, t types.Type, depth int) {
 	if depth > 2 {
 		return
 	}
-	clock := IntLit(int64(u.fresh))
+	clock := IntLit(int64(now))
 	if fromInitialMemory(v) {
 		// the value is read from the memory the function was entered with: it refers
 		// to an object that existed before the call
 		clock = IntLit(0)
 	}
 	switch tt := t.Underlying().(type) {
+	case *types.Interface:
+		// an interface value refers (if at all) to an object that exists now
+		u.Axiom(Le(App("aid", SInt, App("aobj", SV, v)), clock))
 	case *types.Pointer, *types.Map, *types.Chan:
 		u.Axiom(Le(App("aid", SInt, App("aobj", SV, v)), clock))
 	case *types.Slice:
@@ -227,8 +236,8 @@ func (u *Unit) clockFacts(v Term, t types.Type, depth int) {
 		si := u.P.TW.Struct(t)
 		for i := 0; i < tt.NumFields(); i++ {
 			switch tt.Field(i).Type().Underlying().(type) {
-			case *types.Pointer, *types.Map, *types.Chan, *types.Slice, *types.Struct, *types.Signature:
-				u.clockFacts(u.Field(v, si, i), tt.Field(i).Type(), depth+1)
+			case *types.Pointer, *types.Map, *types.Chan, *types.Slice, *types.Struct, *types.Signature, *types.Interface:
+				u.clockFactsAt(now, u.Field(v, si, i), tt.Field(i).Type(), depth+1)
 			}
 		}
 	}
@@ -264,6 +273,17 @@ func (u *Unit) selectMem(st *State, m, addr Term, so Sort, depth int) Term {
 			return sel
 		}
 	}
+	if m.Op == "store" && depth < 200 {
+		// the chain could not be resolved syntactically: the solver will, and it
+		// then needs the definition of the memory underneath at this address
+		b := m
+		for b.Op == "store" {
+			b = b.Args[0]
+		}
+		if _, ok := st.Derivs[b.A]; ok && b.Op == "" {
+			u.selectMem(st, b, addr, so, depth+1)
+		}
+	}
 	return App("select", so, m, addr)
 }
 
@@ -284,6 +304,7 @@ func (u *Unit) store(st *State, addr Term, t types.Type, v Term) {
 	if v.Sort != so {
 		panic(fmt.Sprintf("store: sort mismatch for %s: %s vs %s", key, v.Sort, so))
 	}
+	st.Clock = u.fresh
 	st.Mem[key] = Store(m, addr, v)
 }
 
@@ -369,7 +390,7 @@ func (u *Unit) mapLookup(st *State, mt *types.Map, m, k Term) (has Term, val Ter
 	has = Select(hasArr, k, SBool, nil)
 	val = Select(valArr, k, es, nil)
 	if val.Op == "select" {
-		u.clockFacts(val, mt.Elem(), 0)
+		u.clockFactsAt(st.Clock, val, mt.Elem(), 0)
 	}
 	// nil map has no keys; a present key implies len >= 1
 	u.Axiom(Implies(Eq(m, NilV), Not(has)))
@@ -385,6 +406,7 @@ func (u *Unit) mapUpdate(st *State, mt *types.Map, m, k, v Term) {
 	kh := "maphas:" + typeKey(mt)
 	kv := "mapval:" + typeKey(mt)
 	kl := "maplen:" + typeKey(mt)
+	st.Clock = u.fresh
 	st.Mem[kh] = Store(u.curMem(st, kh), m, Store(hasArr, k, True))
 	st.Mem[kv] = Store(u.curMem(st, kv), m, Store(valArr, k, v))
 	st.Mem[kl] = Store(u.curMem(st, kl), m, Ite(had, l, Add(l, IntLit(1))))
